@@ -177,6 +177,34 @@ def _fold(run, e, ctx, env, module):
             return e.func.value.value.join(v)
         except Exception:
             return NOCONST
+    if isinstance(e, ast.Call) and isinstance(e.func, ast.Name) and e.func.id == 'getattr' and len(e.args) == 2 and not e.keywords:
+        nm = _fold(run, e.args[1], ctx, env, module)
+        if isinstance(nm, str) and nm.isidentifier():
+            return _fold(run, ast.copy_location(ast.Attribute(value=e.args[0], attr=nm, ctx=ast.Load()), e), ctx, env, module)
+        return NOCONST
+    if isinstance(e, ast.Call) and isinstance(e.func, ast.Attribute) and e.func.attr in ('format', 'upper', 'lower', 'strip') \
+            and not e.keywords:
+        base = _fold(run, e.func.value, ctx, env, module)
+        if isinstance(base, (str, bytes)):
+            vs = [_fold(run, a, ctx, env, module) for a in e.args]
+            if NOCONST not in vs:
+                try:
+                    return getattr(base, e.func.attr)(*vs)
+                except Exception:
+                    return NOCONST
+    if isinstance(e, ast.JoinedStr):
+        out = ''
+        for part in e.values:
+            if isinstance(part, ast.Constant):
+                out += str(part.value)
+            elif isinstance(part, ast.FormattedValue) and part.conversion == -1 and part.format_spec is None:
+                v = _fold(run, part.value, ctx, env, module)
+                if v is NOCONST:
+                    return NOCONST
+                out += format(v)
+            else:
+                return NOCONST
+        return out
     if isinstance(e, ast.Call) and not e.keywords:
         r = _fold_pkg_call(run, e, ctx, env, module)
         if r is not NOCONST:
